@@ -469,7 +469,7 @@ class C10(CreateProp):
                 g += 1
                 for cr in pair:
                     # (every third tree: zero runs at the head / tail / middle, repeated blocks, identical files)
-                    out.append({"creator": cr, "version": v, "P": P, "tree": mk_tree(sh, sizes, modes=modes_for(6 * (n // 3), sizes) if n % 3 == 0 else None),
+                    out.append({"creator": cr, "version": v, "P": P, "tree": mk_tree(sh, sizes, modes=modes_for(6 * (n // 3), sizes) if n % 3 == 0 and sum(sizes) < 2 ** 21 else None),
                                 "group": "g%d" % g, "clauses": ["C10.creators"]})
         # no piece length given: every creator has to arrive at the same automatic choice - payload sizes just above
         # the thresholds 1000 * 2^e (where a floored quotient and a true quotient disagree) and well inside a step
